@@ -421,10 +421,31 @@ def r6(ctx):
     fl = dict(zip(rt[2], rt[3])) if rt[0] == "agg" else {}
     allowed = {"Iterator::collect", "Iterator::map", "Iterator::cloned", "Iterator::chain", "Itertools::chunk_by", "Itertools::sorted_unstable_by_key",
                "AccountState::orders_open", "AccountState::orders_cancelled"}
-    used = set(mir.short(t[1]) for t in mir.subterms(fl.get("instruments", ("none",))) if t[0] == "call")
-    cls = [render(ctx.ibody(d).return_term()) for d in ctx.closures_of(snap.defn)]
+    # grouping: chunk_by(sorted_unstable_by_key(all orders, K), K) with K = the order's own instrument (closure or named fn);
+    # then one InstrumentAccountSnapshot per group - as `.map(..).collect()` or as a complete loop pushing one per group
+    grp = [tm for bi, t, tm in snap.real_calls() if mir.short(tm[1]) == "Itertools::chunk_by"]
+    used, cls, shape_ok = set(), [], False
+    if len(grp) == 1 and grp[0][2][0][0] == "call" and mir.short(grp[0][2][0][1]) == "Itertools::sorted_unstable_by_key":
+        srt = grp[0][2][0]
+        used = {"Itertools::chunk_by", "Itertools::sorted_unstable_by_key"} | set(mir.short(t[1]) for t in mir.subterms(srt[2][0]) if t[0] == "call")
+        cls = [render(common.callable_return(ctx, k) or ("const", "?", "")) for k in (srt[2][1], grp[0][2][1])]
+        item = "InstrumentAccountSnapshot::InstrumentAccountSnapshot{instrument: %s.0, orders: Iterator::collect(%s.1)}"
+        ins = fl.get("instruments", ("none",))
+        if ins[0] == "call" and ins[1].endswith("Iterator::collect") and ins[2][0][0] == "call" and ins[2][0][1].endswith("Iterator::map") and \
+                common.strip_iter(ins[2][0][2][0]) == grp[0]:
+            used |= {"Iterator::collect", "Iterator::map"}
+            cls.append(render(common.callable_return(ctx, ins[2][0][2][1]) or ("const", "?", "")).replace("IntoIterator::into_iter($1.1)", "$1.1"))
+            shape_ok = True
+        else:
+            vs = [v for v in common.elementwise_views(ctx, snap.defn) if v["kind"] == "loop" and v["source"] == render(common.strip_iter(grp[0]))]
+            if len(vs) == 1 and vs[0]["complete"] and all(c in (("Iterator::collect($x.1)", "true"), ("Iterator::collect(IntoIterator::into_iter($x.1))", "true"))
+                                                             for c in vs[0]["calls"]) and len(vs[0]["pushes"]) == 1 and vs[0]["pushes"][0][2] == "true" and \
+                    vs[0]["pushes"][0][0] == ins:
+                used |= {"Iterator::collect", "Iterator::map"}        # (the loop is the map + collect)
+                cls.append(vs[0]["pushes"][0][1].replace("$x", "$1").replace("IntoIterator::into_iter($1.1)", "$1.1"))
+                shape_ok = True
     ctx.check("MockExchange::account_snapshot", render(fl.get("exchange", ("none",))) == "self.exchange" and
-              render(fl.get("balances", ("none",))) == "Iterator::collect(Iterator::cloned(AccountState::balances(self.account)))" and
+              render(fl.get("balances", ("none",))) == "Iterator::collect(Iterator::cloned(AccountState::balances(self.account)))" and shape_ok and
               used == allowed and cls == ["$1.key.instrument", "$1.key.instrument",
                                           "InstrumentAccountSnapshot::InstrumentAccountSnapshot{instrument: $1.0, orders: Iterator::collect($1.1)}"],
               "the snapshot holds the exchange's id, every balance, and every open / cancelled order grouped by its own instrument "
